@@ -200,7 +200,8 @@ def run_replays(modname, items, kind):
         out = os.path.join(td, "out.json")
         json.dump(dict(module=modname, kind=kind, items=items), open(inp, "w"))
         env = dict(os.environ)
-        env["PYTHONPATH"] = ROOT
+        # VERIF_REPO (scratch copy of the repository, used when trying seeded changes) also applies to the clean interpreter
+        env["PYTHONPATH"] = ROOT + ((os.pathsep + os.environ["VERIF_REPO"]) if os.environ.get("VERIF_REPO") else "")
         env["PYTHONDONTWRITEBYTECODE"] = "1"
         p = subprocess.run([PY, "-m", "vx.replay", inp, out], env=env, capture_output=True, text=True, timeout=1800)
         if p.returncode != 0 or not os.path.exists(out):
